@@ -48,6 +48,13 @@ UN_METHODS = ['neg', 'abs', 'ceil', 'floor', 'frac', 'sign', 'squared', 'cubed',
               'welwindow', 'triwindow', 'ramp', 'scurve']
 
 
+# operators that also exist as functions of sc3.base.builtins (function-call form bi.f(a, b) / bi.f(x))
+BIN_FUNC = ['mod', 'pow'] + [n for n in BIN_METHODS if n not in ('bitand', 'bitor', 'bitxor', 'lshift', 'rshift')]
+UN_FUNC = [n for n in UN_METHODS if n not in ('neg', 'abs')]
+BIN_NONCOMM = ['pow', 'mod', 'atan2', 'round', 'roundup', 'trunc', 'hypotx', 'ring1', 'ring2', 'ring3', 'ring4', 'difsqr',
+               'sqrdif', 'thresh', 'amclip', 'scaleneg', 'clip2', 'excess', 'fold2', 'wrap2', 'rrand', 'exprand', 'urshift']
+
+
 def carg(a):
     if a[0] == 'c':
         return '(AC %s)' % cq(Fraction(a[1]))
@@ -212,8 +219,9 @@ class Gen:
         r = rng.random()
         ar = None if self.demand else ['audio', 'control', 'scalar']
         if r < 0.5:
-            op = rng.choice(['add', 'add', 'add', 'sub', 'sub', 'mul', 'mul', 'truediv'] if rng.random() < 0.85
-                            else BIN_INFIX + BIN_METHODS)
+            r2 = rng.random()
+            op = (rng.choice(['add', 'add', 'add', 'sub', 'sub', 'mul', 'mul', 'truediv']) if r2 < 0.78
+                  else rng.choice(BIN_NONCOMM) if r2 < 0.9 else rng.choice(BIN_INFIX + BIN_METHODS))
             a, _ = self.any_arg(ar)
             b, _ = self.any_arg(ar)
             if rng.random() < 0.15:
@@ -225,16 +233,23 @@ class Gen:
                 v = {'add': ka[1] + kb[1], 'sub': ka[1] - kb[1], 'mul': ka[1] * kb[1]}[op]
                 self.add(['bin', op, a, b], [('c', v)])
                 return
-            if ka[0] == 'c' and op not in ('add', 'sub', 'mul', 'truediv', 'floordiv', 'mod', 'pow'):
+            # every way of writing the application: infix / reflected infix, method form, function-call form
+            # bi.f(a, b) with the unit on either side (a number first is only expressible as reflected infix or as
+            # the function form)
+            form = None
+            if op in BIN_FUNC and (rng.random() < 0.5 or (ka[0] == 'c' and op not in BIN_INFIX)):
+                form = 'func'
+            if ka[0] == 'c' and form is None and op not in ('add', 'sub', 'mul', 'truediv', 'floordiv', 'mod', 'pow'):
                 a, b, ka, kb = b, a, kb, ka
-            self.add(['bin', op, a, b], [self.bin_kind(op, ka, kb)])
+            self.add(['bin', op, a, b] + ([form] if form else []), [self.bin_kind(op, ka, kb)])
         elif r < 0.62:
             s = self.sigs(ar)
             if not s:
                 return self.ugen()
             a = rng.choice(s[-6:])[0]
             op = 'neg' if rng.random() < 0.7 else rng.choice(UN_METHODS)
-            self.add(['un', op, a], [('u', self.kind_of(a)[1])])
+            form = ['func'] if (op in UN_FUNC and rng.random() < 0.5) else []
+            self.add(['un', op, a] + form, [('u', self.kind_of(a)[1])])
         elif r < 0.75:
             a, b, c = self.any_arg(ar, 0.15)[0], self.any_arg(ar)[0], self.any_arg(ar)[0]
             self.add(['madd', a, b, c], [self.madd_kind(a, b, c)])
@@ -376,8 +391,10 @@ class Gen:
             kind = 'U'
         if kind == 'U' and not [x for x in self.sigs(ar) if x[1] in CAT['LPF'][0]]:
             pass
-        op = rng.choice(['add', 'sub', 'mul', 'truediv', 'mul', 'add'] if rng.random() < 0.8 else BIN_INFIX[:7] + BIN_METHODS)
+        op = rng.choice(['add', 'sub', 'mul', 'truediv', 'mul', 'add'] if rng.random() < 0.7 else BIN_NONCOMM + BIN_INFIX[:7])
         uop = 'neg' if rng.random() < 0.6 else rng.choice(UN_METHODS)
+        bform = ['func'] if (op in BIN_FUNC and rng.random() < 0.5) else []
+        uform = ['func'] if (uop in UN_FUNC and rng.random() < 0.5) else []
         name = rng.choice(self.MCE_CLASSES)
         rate = rng.choice(CAT[name][0])
         shared = [self.any_arg(ar, 0.3)[0] for _ in range(4)]      # a column may be common to all channels
@@ -402,19 +419,21 @@ class Gen:
                 xs = [pick(j, 0.25) for j in range(3 if kind == 'sum3' else 4)]
                 self.add([kind] + xs, [self.sumn_kind(xs)])
             elif kind == 'bin':
-                a, b = pick(0, 0.1), pick(1)
-                if self.kind_of(a)[0] == 'c' and pool:
+                a, b = pick(0, 0.3 if bform else 0.1), pick(1)
+                if self.kind_of(a)[0] == 'c' and pool and (not bform or self.kind_of(b)[0] == 'c'):
                     a = rng.choice(pool)[0]
                 ka, kb = self.kind_of(a), self.kind_of(b)
                 if ka[0] == 'c' and kb[0] == 'c':
-                    if op not in ('add', 'sub', 'mul'):
-                        op = 'add'
-                    self.add(['bin', op, a, b], [self.bin_kind(op, ka, kb)])
-                else:
-                    self.add(['bin', op, a, b], [self.bin_kind(op, ka, kb)])
+                    if pool:
+                        b = rng.choice(pool)[0]
+                        kb = self.kind_of(b)
+                    else:
+                        self.add(['bin', 'add', a, b], [self.bin_kind('add', ka, kb)])     # breaks the group: not registered
+                        continue
+                self.add(['bin', op, a, b] + bform, [self.bin_kind(op, ka, kb)])
             elif kind == 'un':
                 a = rng.choice(pool)[0]
-                self.add(['un', uop, a], [('u', self.kind_of(a)[1])])
+                self.add(['un', uop, a] + uform, [('u', self.kind_of(a)[1])])
             else:
                 arity = CAT[name][1]
                 args = []
@@ -537,6 +556,26 @@ def fix_mce(q, k):
             else:
                 gs.append([s0, n])
         q['mce'] = gs
+
+
+def operator_form_progs():
+    """Every way the library offers to write an operator application must give the same unit wiring: for each
+    operator that exists as a function of sc3.base.builtins, bi.f(number, unit), bi.f(unit, number), bi.f(unit, unit)
+    and the method / infix form in one definition; unary functions eight per definition."""
+    out = []
+    for op in BIN_FUNC:
+        out.append({'ins': [['U', 'Saw', 'audio', [C('3')]], ['U', 'LFNoise0', 'control', [C('5')]],
+                            ['bin', op, C('1/2'), V(0), 'func'], ['bin', op, V(0), C('1/2'), 'func'],
+                            ['bin', op, V(1), V(0), 'func'], ['bin', op, V(0), V(1)], ['bin', op, ['c', '2', 'i'], V(1), 'func'],
+                            ['out', 'audio', C('0'), [V(2), V(3), V(4), V(5)]], ['out', 'control', C('1'), [V(6)]]]})
+    for k in range(0, len(UN_FUNC), 8):
+        ops = UN_FUNC[k:k + 8]
+        ins = [['U', 'Saw', 'audio', [C('3')]]]
+        for j, op in enumerate(ops):
+            ins.append(['un', op, V(0), 'func'] if j % 2 == 0 else ['un', op, V(0)])
+        ins.append(['out', 'audio', C('0'), [V(j + 1) for j in range(len(ops))]])
+        out.append({'ins': ins})
+    return out
 
 
 def shrink(prog, still_fails, budget=60):
